@@ -3,13 +3,14 @@ import random
 from fractions import Fraction
 
 from vf import import_desper
-from vf.core import Res
+from vf.core import Res, HarnessError
 
 ID = 'C08'
 LEVEL = 'exploration'
 RULE = ('1-8 coroutines whose bodies replay a script of yield values (None, '
         '0, negatives, positive dyadic rationals k/8 <= 6, ints; a step may '
-        'also start another coroutine), started at scripted frames; dt '
+        'also start another coroutine, and in 15% of the cases one body raises '
+        'at some step, abandoning that frame), started at scripted frames; dt '
         'sequences of dyadic rationals incl. 0 and large jumps (all float '
         'arithmetic exact); overlapping waits on purpose: new waits while '
         'others are pending, equal deadlines, all waits expiring in one '
@@ -30,8 +31,9 @@ MIN_STATS = {'wakeups_checked': 3000, 'steps_checked': 30000}
 ASSUMPTIONS = [
     "don't-care: position of freshly woken or freshly started coroutines "
     'relative to the others; a coroutine started from inside a body during '
-    'frame f may take its first step in f or f+1; bodies that raise are not '
-    'generated',
+    'frame f may take its first step in f or f+1; a body that raises ends '
+    'its coroutine and the frame (the other coroutines are judged again '
+    'from the next frame on, relative order not judged across that frame)',
     'dt and wait values are dyadic rationals (exactly representable)',
 ]
 
@@ -83,7 +85,15 @@ def gen_one(rng, tier, scale=False):
             script = [rng.choice([1, 2, 0.5])] * rng.randint(1, 4)
         coros.append({'start': rng.randrange(max(1, nframes // 2))
                       if rng.random() < 0.9 else None, 'script': script})
-    return {'coros': coros, 'dts': dts}
+    case = {'coros': coros, 'dts': dts}
+    if not scale and rng.random() < 0.15:
+        # one body raises at some step (desper.switch()/quit_loop() called
+        # from a coroutine work by raising): that frame fails, the others
+        # must carry on from the next frame as if nothing had happened
+        c = rng.randrange(nc)
+        script = coros[c]['script']
+        script.insert(rng.randint(0, len(script)), {'raise': True})
+    return case
 
 
 def gen_cases(tier, seed):
@@ -107,12 +117,15 @@ def run_case(case):
     spawned_now = set()
 
     def yield_of(item):
-        return item['y'] if isinstance(item, dict) else item
+        return item.get('y') if isinstance(item, dict) else item
 
     def body(uid, script):
         for i, item in enumerate(script):
             log.append((frame[0], uid, i))
-            if isinstance(item, dict):
+            if isinstance(item, dict) and item.get('raise'):
+                fault.append(HarnessError(f'coroutine {uid} raises'))
+                raise fault[-1]
+            if isinstance(item, dict) and 'spawn' in item:
                 k = item['spawn']
                 if not started[k]:
                     start(k, inside=True)
@@ -128,6 +141,7 @@ def run_case(case):
             spawned_now.add(k)
 
     model = {}
+    fault = []
     waits_started = {}          # uid -> frame at which the wait started
     overlap_uneven = False
     prev_order = None
@@ -151,11 +165,23 @@ def run_case(case):
                     expected.add(k)
                     m['woken'] = True
         before = len(log)
+        failed = False
+        nfaults = len(fault)
         try:
             proc.process(dt)
         except Exception as ex:
-            res.div(f, 'process-raised', f'{type(ex).__name__}: {ex}',
-                    'no exception', repr(ex))
+            if len(fault) == nfaults + 1 and ex is fault[-1]:
+                # the frame was abandoned where the body raised
+                failed = True
+                res.stats['frames_failed_by_a_raising_body'] += 1
+            else:
+                res.div(f, 'process-raised', f'{type(ex).__name__}: {ex}',
+                        'no exception', repr(ex))
+                break
+            del ex
+        if len(fault) == nfaults + 1 and not failed:
+            res.div(f, 'fault-not-propagated', 'a coroutine raised but '
+                    'process() returned normally', repr(fault[-1]), None)
             break
         steps = log[before:]
         res.stats['frames'] += 1
@@ -188,6 +214,8 @@ def run_case(case):
         if res.divs:
             break
         for uid in expected:
+            if failed:
+                break       # the coroutines after the raising one wait
             if uid not in seen:
                 m = model[uid]
                 if m['state'] == 'waiting':
@@ -204,6 +232,8 @@ def run_case(case):
         if res.divs:
             break
         # relative order of the coroutines that stayed runnable
+        if failed:
+            prev_order = None
         if prev_order is not None:
             # only coroutines that were already settled in the previous frame
             # (runnable at its start: neither woken nor started in it - their
@@ -224,7 +254,8 @@ def run_case(case):
             if m['state'] == 'waiting':
                 res.stats['wakeups_checked'] += 1
                 waits_started.pop(uid, None)
-            if idx >= len(script):
+            if idx >= len(script) or (isinstance(script[idx], dict)
+                                      and script[idx].get('raise')):
                 m['state'] = 'done'
                 continue
             y = yield_of(script[idx])
@@ -240,6 +271,10 @@ def run_case(case):
                 res.stats['dontcare_spawn_next_frame'] += 1
         prev_settled = set(prev_stay)
         prev_order, prev_stay = order, stay
+        if failed:
+            prev_order, prev_stay, prev_settled = None, set(), set()
+            res.tags['runnable_left_behind_by_failed_frame'].add(
+                min(3, len([u for u in expected if u not in seen])))
         nwait = len(waits_started)
         res.tags['simultaneous_waiters'].add(min(nwait, 6))
         if nwait >= 2:
@@ -260,7 +295,7 @@ def shrink(case):
     for i in range(len(coros)):
         if len(coros) > 1:
             def fix(item, i=i):
-                if isinstance(item, dict):
+                if isinstance(item, dict) and 'spawn' in item:
                     k = item['spawn']
                     if k == i:
                         return item['y']
